@@ -144,6 +144,14 @@ func init() {
 		}
 		s.obs("enc %s", hexOrDash(out))
 	})
+	register("hdr", func(s *sess, tk []string) {
+		f := s.file(tk[1])
+		if f.db == nil {
+			s.obs("hdr nofile")
+			return
+		}
+		s.obs("hdr %s", showHeader(f.db.Header()))
+	})
 	// dec KIND HEX
 	register("dec", func(s *sess, tk []string) {
 		s.obs("dec %s", decodeKind(tk[1], unhex(tk[2])))
